@@ -1337,12 +1337,18 @@ class AdbDevice(object):
         self._io_manager.send(msg, adb_info)
 
         # Expect an 'OKAY' in response; anything that the device writes before that (e.g., a failure report) is kept for the next filesync read
+        start = time.time()
+
         while True:
             cmd, data = self._read_until([constants.OKAY, constants.WRTE], adb_info)
             if cmd == constants.OKAY:
                 break
 
             filesync_info.recv_buffer += data
+
+            if time.time() - start > adb_info.read_timeout_s:
+                # Timeout
+                raise exceptions.AdbTimeoutError("Never got an OKAY for the data that was sent (transport_timeout_s = {}, read_timeout_s = {})".format(adb_info.transport_timeout_s, adb_info.read_timeout_s))
 
         # Reset the send index
         filesync_info.send_idx = 0
